@@ -88,15 +88,18 @@ class Registry:
 class S:
     """symbol factory handed to contract setups; names are stable across path re-executions"""
 
-    def __init__(self, ex):
+    def __init__(self, ex, fixed=None):
         self.ex = ex
         self.leaves = {}
+        self.fixed = dict(fixed or {})       # bounded mode: size symbols fixed to small concrete values
 
     def _reg(self, name, v):
         self.leaves[name] = v
         return v
 
     def int(self, name):
+        if name in self.fixed:
+            return self._reg(name, self.fixed[name])
         return self._reg(name, z3.Int(name))
 
     def real(self, name):
@@ -440,7 +443,7 @@ class FunctionReport:
         self.path_summaries = []
 
 
-def verify_function(repo, registry, qualname, max_paths=400, post_hooks=()):
+def verify_function(repo, registry, qualname, max_paths=400, post_hooks=(), fixed=None):
     """symbolically executes every path of the function under its `requires`, collecting obligations:
     internal (bounds, divisors, callee preconditions, loop invariants) and the contract's ensures/raises."""
     c = registry.contract_for(qualname)
@@ -458,10 +461,11 @@ def verify_function(repo, registry, qualname, max_paths=400, post_hooks=()):
             break
         V._counter = __import__("itertools").count()     # deterministic symbol names per path
         ex = Exec(repo, registry, trace)
+        ex.fixed_mode = bool(fixed)
         ex.proof_label = qualname
         registry.under_proof = base_q
         registry.proof_contract = c
-        sfac = S(ex)
+        sfac = S(ex, fixed)
         try:
             args = c.setup(sfac)
         except Unsupported as u:
@@ -500,6 +504,8 @@ def verify_function(repo, registry, qualname, max_paths=400, post_hooks=()):
             if outcome[0] == "return":
                 cenv = dict(env)
                 cenv["result"] = outcome[1]
+                if c.ghost:
+                    c.ghost(sfac, cenv)      # ghost names may depend on what the execution recorded
                 for (nm, cl) in c.named(c.ensures, "ensures"):
                     g = c.guided(nm)
                     if g is not None:
